@@ -6,6 +6,8 @@ import common
 import gen
 import progcases
 
+TWINS = ['pred', 'label']      # harness/twins.py: which part of a twin text carries the difference
+
 N = {"quick": 500, "thorough": 12000}
 
 
